@@ -61,7 +61,7 @@ TILING = ('Coq proof: tiling invariant sink = chunk[0..remaining_content_start) 
 COROLL = 'Coq proof: corollary of the tiling theorem (proofs/Tiling.v, Corollaries.v) + extraction-based correspondence run; oracle on the implementation'
 LAWS = 'Coq proof: algebraic laws of the executable model of tokens/mutations/escaping (proofs/TokenLaws.v) + extraction-based correspondence run with random operation scripts'
 PROPS = {
-    'C02': dict(coq=['props/C02.vo'], families=[('grp-l1', 700, 15000), ('grp-l2mixed', 900, 20000), ('grp-l2edit', 500, 10000), ('utf8', 300, 6000)], projections=['full'], oracle=oracle_c02,
+    'C02': dict(coq=['props/C02.vo'], families=[('grp-l1', 700, 15000), ('grp-l2mixed', 900, 20000), ('grp-l2edit', 500, 10000), ('utf8', 300, 6000), ('utf8m', 400, 8000)], projections=['full'], oracle=oracle_c02,
         technique=COROLL,
         level_text='Theorem C02_output_is_chunking_invariant_for_observers: for every observer controller and any two splits of the same bytes (incl. one-byte and empty writes) both successful runs emit the same bytes. '
                    'Partial: invariance of the handler-visible events and of mutating configurations (C02_full_statement is kept visible, not proved) is decided by the correspondence run on chunking groups '
@@ -126,7 +126,7 @@ PROPS = {
         level_text=C10_TEXT,
         level_note='Trusted: Coq kernel, translator (LimitedVec constants), hand model of Arena/LimitedVec/SharedMemoryLimiter accounting (Vec::try_reserve_exact assumed exact), '
                    'size_of::<StackItem> measured through the limiter hook at run time and passed to the model; correspondence on results, usage after every write and output.'),
-    'C04': dict(coq=['props/C04.vo'], families=[('c04', 2500, 60000), ('l2match', 500, 10000), ('grp-l2mixed', 300, 6000)], projections=['handlers', 'events'], oracle=oracle_c04, classify=classify_c04, prepare=prepare_c04,
+    'C04': dict(coq=['props/C04.vo'], families=[('c04', 2500, 60000), ('l2match', 500, 10000), ('grp-l2mixed', 300, 6000), ('enc', 300, 6000)], projections=['handlers', 'events'], oracle=oracle_c04, classify=classify_c04, prepare=prepare_c04,
         technique='Coq proofs about the pieces of selector matching against an independent Coq reference semantics (spec/CssSem.v); the extracted reference semantics is the oracle for the '
                   'implementation\'s element-handler invocations; extraction-based correspondence run of the AST/compiler/VM/stack model',
         level_text='Theorems (props/C04.v): names (hash or bytes comparison = ASCII case-insensitive equality), all six attribute operators, An+B under wrapping i32 arithmetic, '
@@ -159,7 +159,7 @@ PROPS = {
                    'by the level-3 harness oracle (strings read vs Encoding::decode_without_bom_handling of the token bytes, sink bytes vs Encoding::encode, set_encoding positions, refusal of non-ASCII-compatible encodings is by type). '
                    'The model of TextDecoder is tied to the code by the correspondence run on text-only UTF-8 documents (chunk text merged per node, ranges, last flags).',
         level_note='Trusted as C01 plus: decoder_laws as the contract of encoding_rs::Decoder::decode_to_str; harness/src/l3.rs (reference computations with encoding_rs one-shot decode/encode); the Coq UTF-8 decoder instance is a model of encoding_rs validated only by the correspondence run.'),
-    'C18': dict(coq=['props/C18.vo'], families=[('mem', 900, 20000), ('l2mixed', 400, 8000), ('l1', 300, 6000), ('l2fail', 200, 4000), ('enc', 100, 2000)], projections=['full'], oracle=oracle_c18, prepare=prepare_c18,
+    'C18': dict(coq=['props/C18.vo'], families=[('mem', 900, 20000), ('l2mixed', 400, 8000), ('l1', 300, 6000), ('l2fail', 200, 4000), ('enc', 100, 2000), ('twins', 200, 4000)], projections=['full'], oracle=oracle_c18, prepare=prepare_c18,
         technique='Coq proof by computation over the inventory of global state that the translator regenerates from the source (no process-wide mutable state, one allowed thread-local); '
                   'extraction-based correspondence run against the model (a pure function); thread-schedule differential runs of the implementation (fresh thread / shared thread / 16 and 3 concurrent workers / migrating send::HtmlRewriter)',
         level_text='Theorems C18_no_shared_mutable_state and C18_c_api_last_error_is_thread_local: every static / thread_local / lazy_static item in src/ and c-api/src/ (inventory regenerated from the source each run) is immutable, '
